@@ -574,6 +574,7 @@ class Tracer:
                         if cond.get('neg'):
                             val = not val
                         cpath = cond.get('path'); cev = cond.get('ev'); oval = val
+                        forms = {subst_path(cpath, full): val}       # every spelling the condition goes through while it is rewritten, with its outcome
                         # a branch on a bool local that is defined once is a branch on its initialiser (bool ok = cas(...); if (ok) ...)
                         m2_ = re.fullmatch(r'\(local:(\w+) (==|!=) (false|true|0|1)\)', cpath or '')
                         if m2_ and m2_.group(1) in bl:
@@ -581,6 +582,16 @@ class Tracer:
                             cpath = 'local:' + m2_.group(1)
                             if (m2_.group(2) == '==') == (m2_.group(3) in ('false', '0')):
                                 val = not val
+                        else:
+                            # the same spelling on any bool expression: (x == false), (true != x)
+                            m3_ = re.fullmatch(r'\((.+) (==|!=) (false|true)\)', cpath or '') or re.fullmatch(r'\((false|true) (==|!=) (.+)\)', cpath or '')
+                            if m3_:
+                                g_ = m3_.groups()
+                                x_, lit_ = (g_[0], g_[2]) if g_[2] in ('false', 'true') and g_[0] not in ('false', 'true') else (g_[2], g_[0])
+                                if x_.count('(') == x_.count(')') and not split_logic(x_):
+                                    cpath = x_
+                                    if (g_[1] == '==') == (lit_ == 'false'):
+                                        val = not val
                         for _ in range(3):
                             m_ = re.fullmatch(r'local:(\w+)', cpath or '')
                             if not m_ or m_.group(1) not in bl:
@@ -589,7 +600,9 @@ class Tracer:
                             cpath = ipath; cev = iev if iev is not None else cev
                             if ineg:
                                 val = not val
-                        br = Item(k='branch', cond_ev=cev, val=val, oval=oval, path=subst_path(cpath, full), opath=cond.get('path'),
+                            forms.setdefault(subst_path(cpath, full), val)
+                        forms.setdefault(subst_path(cpath, full), val)
+                        br = Item(k='branch', cond_ev=cev, val=val, oval=oval, path=subst_path(cpath, full), opath=cond.get('path'), forms=forms,
                                   fn=f['key'], fname=f['nname'], depth=d, term=cond.get('term'), loc=cond.get('loc'), block=bid)
                         if split_logic(br['path'] or ''):
                             # bool ntf = a || b; ... if (ntf): the operands but the last were branched on where the local was initialised: on this
